@@ -150,11 +150,14 @@ class HTTPFile(io.IOBase):
 
     def read(self, size=-1, /):
         """Cache-supported read operation (file object)"""
-        data = self.read_range_cached(self._pos, self._pos + size)
-        if size > 0:
-            self._pos += size
+        if size is None or size < 0:
+            # read until the end of the resource
+            stop = self.length
         else:
-            self._pos = self.length
+            stop = self._pos + size
+        data = self.read_range_cached(self._pos, stop)
+        # the position advances by what was actually read
+        self._pos += len(data)
         return data
 
     def read_range_cached(self, start, stop):
